@@ -17,8 +17,12 @@ import (
 	"verif/internal/vsrun"
 )
 
-var errReader = errors.New("injected reader failure")
-var errWriter = errors.New("injected writer failure")
+// The injected errors come in several identities: a reader or writer may fail with an
+// error that wraps io.EOF or io.ErrUnexpectedEOF (a truncated frame, a closed connection);
+// only the bare io.EOF value means "end of input".
+var errReaders = []error{errors.New("injected reader failure"), fmt.Errorf("injected reader failure: %w", io.EOF), fmt.Errorf("injected reader failure: %w", io.ErrUnexpectedEOF)}
+var errWriters = []error{errors.New("injected writer failure"), fmt.Errorf("injected writer failure: %w", io.EOF), fmt.Errorf("injected writer failure: %w", io.ErrShortWrite)}
+var errKindNames = []string{"plain", "wraps-EOF", "wraps-other-io-error"}
 
 // faultReader delivers data[:k] in reads of at most step bytes, then fails.
 type faultReader struct {
@@ -26,11 +30,12 @@ type faultReader struct {
 	k, pos   int
 	step     int
 	withLast bool // return the error together with the last good bytes
+	err      error
 }
 
 func (r *faultReader) Read(p []byte) (int, error) {
 	if r.pos >= r.k {
-		return 0, errReader
+		return 0, r.err
 	}
 	n := r.k - r.pos
 	if n > len(p) {
@@ -42,7 +47,7 @@ func (r *faultReader) Read(p []byte) (int, error) {
 	copy(p, r.data[r.pos:r.pos+n])
 	r.pos += n
 	if r.pos >= r.k && r.withLast {
-		return n, errReader
+		return n, r.err
 	}
 	return n, nil
 }
@@ -53,15 +58,16 @@ type faultWriter struct {
 	calls int
 	k     int
 	short bool
+	err   error
 }
 
 func (w *faultWriter) Write(p []byte) (int, error) {
 	w.calls++
 	if w.k > 0 && w.calls >= w.k {
 		if w.short && len(p) > 1 {
-			return len(p) / 2, errWriter
+			return len(p) / 2, w.err
 		}
-		return 0, errWriter
+		return 0, w.err
 	}
 	w.buf.Write(p)
 	return len(p), nil
@@ -82,12 +88,13 @@ var entries = []entry{
 }
 
 // One runs one fault case; returns a violation description or "".
-func One(e entry, d corpus.Doc, rk, rstep int, rlast bool, wk int, wshort bool) (kind, what string) {
+func One(e entry, d corpus.Doc, rk, rstep int, rlast bool, wk int, wshort bool, ek int) (kind, what string) {
+	errReader, errWriter := errReaders[ek], errWriters[ek]
 	var r io.Reader = bytes.NewReader([]byte(d.Text))
 	if rk >= 0 {
-		r = &faultReader{data: []byte(d.Text), k: rk, step: rstep, withLast: rlast}
+		r = &faultReader{data: []byte(d.Text), k: rk, step: rstep, withLast: rlast, err: errReader}
 	}
-	w := &faultWriter{k: wk, short: wshort}
+	w := &faultWriter{k: wk, short: wshort, err: errWriter}
 	var err error
 	if p := core.Recover(func() { err = e.call(d, w, r) }); p != "" {
 		return "panic", p
@@ -124,15 +131,16 @@ type job struct {
 	rlast     bool
 	wk        int
 	wshort    bool
+	ek        int // error identity
 }
 
 func (j job) config() string {
-	return fmt.Sprintf("entry=%s reader_fail_after=%d step=%d with_last=%v writer_fail_from=%d short=%v", j.e.name, j.rk, j.rstep, j.rlast, j.wk, j.wshort)
+	return fmt.Sprintf("entry=%s reader_fail_after=%d step=%d with_last=%v writer_fail_from=%d short=%v error=%s", j.e.name, j.rk, j.rstep, j.rlast, j.wk, j.wshort, errKindNames[j.ek])
 }
 
 // Run executes C14.
 func Run(c *core.Check) {
-	c.Rule = "for every corpus document of every media type (valid ones with embedded content and ones whose minification fails late) and every entry point: the reader fails after k bytes for EVERY k in 0..len (reads of 1/7/all bytes; error returned alone or together with the last bytes); the writer fails from its k-th call on for EVERY k in 1..calls+1 (returning 0 or a short count); and both for all pairs on a subset; through Reader/Writer/ResponseWriter every interleaving (controlled scheduler). Non-trivial = a fault was actually hit before the call returned"
+	c.Rule = "for every corpus document of every media type (valid ones with embedded content and ones whose minification fails late) and every entry point: the reader fails after k bytes for EVERY k in 0..len (reads of 1/7/all bytes; error returned alone or together with the last bytes; the error is a plain one, one that wraps io.EOF, one that wraps another io error); the writer fails from its k-th call on for EVERY k in 1..calls+1 (returning 0 or a short count), also for every proper prefix of every valid document taken as a document of its own; and both for all pairs on a subset; through Reader/Writer/ResponseWriter every interleaving (controlled scheduler). Non-trivial = a fault was actually hit before the call returned"
 	c.Assumptions = []string{"a writer that fails keeps failing (a writer that recovers is outside the statement)", "wrappers: same scheduler assumptions as C12"}
 	docs := append(append([]corpus.Doc{}, corpus.Valid...), corpus.Failing...)
 	var jobs []job
@@ -142,28 +150,49 @@ func Run(c *core.Check) {
 			cw := &faultWriter{}
 			e.call(d, cw, bytes.NewReader([]byte(d.Text)))
 			n := len(d.Text)
-			for k := 0; k <= n; k++ {
-				for _, st := range []int{0, 1, 7} {
-					jobs = append(jobs, job{e, d, k, st, false, 0, false}, job{e, d, k, st, true, 0, false})
+			for ek := range errKindNames {
+				for k := 0; k <= n; k++ {
+					for _, st := range []int{0, 1, 7} {
+						if ek > 0 && st == 7 {
+							continue
+						}
+						jobs = append(jobs, job{e, d, k, st, false, 0, false, ek}, job{e, d, k, st, true, 0, false, ek})
+					}
 				}
-			}
-			for k := 1; k <= cw.calls+1; k++ {
-				jobs = append(jobs, job{e, d, -1, 0, false, k, false}, job{e, d, -1, 0, false, k, true})
+				for k := 1; k <= cw.calls+1; k++ {
+					jobs = append(jobs, job{e, d, -1, 0, false, k, false, ek}, job{e, d, -1, 0, false, k, true, ek})
+				}
 			}
 			// pairs: thorough all (k1 every 1, k2 all); quick a diagonal
 			for k1 := 0; k1 <= n; k1++ {
 				for k2 := 1; k2 <= cw.calls+1; k2++ {
 					if c.Thorough() || (k1+k2)%7 == 0 {
-						jobs = append(jobs, job{e, d, k1, 0, false, k2, false})
+						jobs = append(jobs, job{e, d, k1, 0, false, k2, false, (k1 + k2) % len(errKindNames)})
 					}
 				}
 			}
 		}
 	}
+	// input shapes: every proper prefix of every valid document is a document of its own
+	// (unterminated tags, comments, processing instructions, strings, blocks ...); the writer
+	// fails from its k-th call on for every k.
+	nPrefix := 0
+	for _, d := range corpus.Valid {
+		for cut := 1; cut < len(d.Text); cut++ {
+			pd := corpus.Doc{Type: d.Type, Text: d.Text[:cut]}
+			cw := &faultWriter{}
+			entries[0].call(pd, cw, bytes.NewReader([]byte(pd.Text)))
+			for k := 1; k <= cw.calls+1; k++ {
+				jobs = append(jobs, job{entries[0], pd, -1, 0, false, k, false, 0})
+				nPrefix++
+			}
+		}
+	}
+	c.Extra["prefix_document_fault_cases"] = nPrefix
 	c.Family("sequential-faults").Bound = fmt.Sprintf("%d documents x %d entry points, all fault positions", len(docs), len(entries))
 	c.ParallelRange("sequential-faults", uint64(len(jobs)), func(i uint64) {
 		j := jobs[i]
-		kind, what := One(j.e, j.d, j.rk, j.rstep, j.rlast, j.wk, j.wshort)
+		kind, what := One(j.e, j.d, j.rk, j.rstep, j.rlast, j.wk, j.wshort, j.ek)
 		c.Count(1)
 		c.Nontrivial(j.d.Text, j.config())
 		c.AddFamily("sequential-faults", 1, 1)
@@ -189,13 +218,19 @@ func Replay(f core.Failure) (string, string) {
 	var typ, ename string
 	parts := strings.SplitN(f.Config, " ", 2)
 	typ = parts[0]
-	fmt.Sscanf(parts[1], "entry=%s reader_fail_after=%d step=%d with_last=%t writer_fail_from=%d short=%t", &ename, &j.rk, &j.rstep, &j.rlast, &j.wk, &j.wshort)
+	var ekName string
+	fmt.Sscanf(parts[1], "entry=%s reader_fail_after=%d step=%d with_last=%t writer_fail_from=%d short=%t error=%s", &ename, &j.rk, &j.rstep, &j.rlast, &j.wk, &j.wshort, &ekName)
+	for i, n := range errKindNames {
+		if n == ekName {
+			j.ek = i
+		}
+	}
 	for _, e := range entries {
 		if e.name == ename {
 			j.e = e
 		}
 	}
-	return One(j.e, corpus.Doc{Type: typ, Text: f.Input}, j.rk, j.rstep, j.rlast, j.wk, j.wshort)
+	return One(j.e, corpus.Doc{Type: typ, Text: f.Input}, j.rk, j.rstep, j.rlast, j.wk, j.wshort, j.ek)
 }
 
 var _ = minify.ErrNotExist
